@@ -163,6 +163,46 @@ fn c08_entry_setter_programs() {
     kani::cover!(m_addr != 0 && m_flags != 0);
 }
 
+/// Arbitrary 6-step setter programs against a 2-field (address, flags) model.
+#[kani::proof]
+#[kani::unwind(7)]
+fn c08t_entry_setter_programs_6() {
+    let mut e = any_entry();
+    let mut m_addr = e.entry & ADDR_MASK;
+    let mut m_flags = e.entry & !ADDR_MASK;
+    for _ in 0..6 {
+        match kani::any::<u8>() % 4 {
+            0 => {
+                let a = any_aligned_phys();
+                let f = any_flags();
+                e.set_addr(a, f);
+                m_addr = a.as_u64();
+                m_flags = f.bits();
+            }
+            1 => {
+                let a = any_aligned_phys();
+                let f = any_flags();
+                e.set_frame(PhysFrame::containing_address(a), f);
+                m_addr = a.as_u64();
+                m_flags = f.bits();
+            }
+            2 => {
+                let f = any_flags();
+                e.set_flags(f);
+                m_flags = f.bits();
+            }
+            _ => {
+                e.set_unused();
+                m_addr = 0;
+                m_flags = 0;
+            }
+        }
+        vp!(C08, e.entry == m_addr | m_flags, "entry diverged from the (address, flags) model");
+        vp!(C08, e.addr().as_u64() == m_addr, "addr() diverged from the model");
+    }
+    kani::cover!(m_addr != 0 && m_flags != 0);
+}
+
 // ================================================================= C08: table layout
 #[kani::proof]
 fn c08_table_layout() {
